@@ -220,6 +220,10 @@ CORPUS = [
     # reads back word for word (a quoted lone backslash is no continuation mark)
     _c("io {\n  separator = \"/\"\n    .type = str\n  n_threads = 1\n    .type = int\n  tag = None\n}\n",
        ["io {\n  tag = run7\n  n_threads = 4\n  separator = \"\\\\\"\n}\n"]),
+    # a quoted value holding a backslash directly in front of a line break (and a Windows path): the printed difference reads
+    # back as the same string (round 9: an escaper that doubles backslashes selectively turns it into a continuation)
+    _c("job {\n  title = None\n    .type = str\n  note = None\n    .type = str\n}\n",
+       ["job.title = \"first line\\\\\nsecond line\"\njob.note = \"C:\\\\tmp\\\\\"\n"]),
     # empty string versus None, empty list versus default
     _c("job {\n  title = None\n    .type = str\n  suffix = \"\"\n    .type = str\n  cycles = 1 2\n    .type = ints\n}\n",
        ["job {\n  title = \"\"\n  suffix = None\n  cycles = \"\"\n}\n"]),
